@@ -394,7 +394,9 @@ package testscript
 //@   callee rewind(): pure
 //@   callee markTime(): modifies F_S_testscript_TestScript_start
 //@   at call (*testscript.TestScript).runLine#1: requires (!failed || ts.params.ContinueOnError) && !ts.stopped
-//@   at call strings.Index#1: ghost gLineLo = lo(s); gScriptHi = hi(s); gScriptArr = arrof(s)
+//@   at call? strings.Index#1: ghost gLineLo = lo(s); gScriptHi = hi(s); gScriptArr = arrof(s)
+//@   at call? strings.IndexByte#1: ghost gLineLo = lo(s); gScriptHi = hi(s); gScriptArr = arrof(s)
+//@   at call? strings.Cut#1: ghost gLineLo = lo(s); gScriptHi = hi(s); gScriptArr = arrof(s)
 //@   at call (*testscript.TestScript).runLine#1: requires arrof(line) == gScriptArr && lo(line) == gLineLo && (hi(line) == gScriptHi || at(line, hi(line)) == '\n') && forall Q {at(line,Q)} :: lo(line) <= Q && Q < hi(line) ==> at(line,Q) != '\n'
 //@   at call fmt.Fprintf#3: requires !failed && !ts.stopped
 //@   at call (*testscript.TestScript).setup#1: requires deferIndex("run$3") == 0 && deferIndex("run$4") == 1
